@@ -11,6 +11,7 @@ From NB Require Import Merge.Decisions.
 From NB Require Import Merge.Apply.
 From NB Require Import Merge.MergeGeneric.
 From NB Require Import Merge.MergeProofs.
+From NB Require Import Merge.MergeSmallScope.
 From NB Require Import Gen.MergeFacts.
 Import ListNotations.
 
@@ -38,3 +39,16 @@ Theorem disjoint_merge_example :
                /\ apply_decisions (JArr [JInt 1; JInt 2; JInt 3]) decs = Ok (JArr [JInt 2]).
 Proof. exact separated_nonvacuous. Qed.
 Print Assumptions disjoint_merge_example.
+
+(* FULL statement on exhaustively enumerated finite domains: whenever the two sides' changes are separated (and both
+   non-empty) the merge is conflict-free and the merged document is the position-wise meaning of the union of the two
+   diffs (Wf.spec_patch, no cursor): bases = lists of length <= 3 over {1,2,3} with both sides of length <= 2, and
+   objects over x,y -> {1,2,3}; 252 resp. 288 of the triples are separated with both sides changing
+   (disjoint_small_scope_counts). *)
+Theorem disjoint_merge_small_scope :
+  (forall b l r, In b (small_lists 3) -> In l (small_lists 2) -> In r (small_lists 2) ->
+                 disjoint_ok chunks_guard entry_eq_strict conflict_assert_strict b l r = true)
+  /\ (forall b l r, In b small_objects2 -> In l small_objects2 -> In r small_objects2 ->
+                    disjoint_ok chunks_guard entry_eq_strict conflict_assert_strict b l r = true).
+Proof. exact disjoint_small_scope. Qed.
+Print Assumptions disjoint_merge_small_scope.
